@@ -277,7 +277,21 @@ def shrink_ssc(hexs, still_fails):
     return b
 
 
-SYNTHETIC = ["pack:2 l3:1 l2:2 l1d:1 l1i:1 core:1 pu:2", "group:2 group:2 pack:1 core:2 pu:1", "node:2 pack:1 l2:2 pu:2",
+def untyped_synthetic():
+    """bare-number descriptions of every length 1..12 (the backend invents the level types, caches included),
+    arity 1 except one level of arity 2, with and without an attached NUMA level"""
+    out = []
+    for n in range(1, 13):
+        ar = ["1"] * n
+        ar[n // 2] = "2"
+        out.append(" ".join(ar))
+        if n >= 2:
+            out.append(" ".join(ar[:n // 2] + ["[numa]"] + ar[n // 2:]))
+            out.append(" ".join(["2"] + ["1"] * (n - 2) + ["[numa]", "2"]))
+    return out
+
+
+SYNTHETIC = untyped_synthetic() + ["pack:2 l3:1 l2:2 l1d:1 l1i:1 core:1 pu:2", "group:2 group:2 pack:1 core:2 pu:1", "node:2 pack:1 l2:2 pu:2",
              "pack:1 die:2 l5:1 l4:1 l3:1 l3i:1 l2:1 l2i:1 l1:1 l1i:1 core:1 pu:1", "pu:3", "machine:1 group:3 numa:2 core:2 pu:2"]
 
 
@@ -391,7 +405,7 @@ LV_SYNTHETIC = ["pack:2 l3:1 l2:2 l1d:1 l1i:1 core:1 pu:2", "group:2 group:2 pac
 def lv_sources(repo, corpus):
     import glob, os
     xs = sorted(glob.glob(os.path.join(repo, "tests/hwloc/xml/*.xml"))) + sorted(glob.glob(os.path.join(corpus, "*.xml")))
-    return ["synthetic_" + d.replace(" ", "_") for d in LV_SYNTHETIC] + ["xml_" + x for x in xs if " " not in x]
+    return ["synthetic_" + d.replace(" ", "_") for d in LV_SYNTHETIC + [u for u in untyped_synthetic() if "[" not in u and len(u.split()) in (7, 8, 12)]] + ["xml_" + x for x in xs if " " not in x]
 
 
 def depth_cases(rng, tier, lvline):
